@@ -519,6 +519,7 @@ typedef struct {
 	size_t maxframe, recvmax, fragsize;
 	int    recvtext, sendtext;
 	const char *key; // Sec-WebSocket-Key used by the raw client
+	const char *conn; // value of the Connection header the raw side sends (NULL: "Upgrade")
 } wscfg;
 
 static nng_stream_listener *g_l;
@@ -564,9 +565,9 @@ ws_establish(const wscfg *cf, const uint8_t *pre, size_t prelen, const char *hcu
 		}
 		int hl = snprintf((char *) head, sizeof(head),
 		    "GET /t HTTP/1.1\r\nHost: 127.0.0.1:%d\r\nUpgrade: websocket\r\n"
-		    "Connection: Upgrade\r\nSec-WebSocket-Key: %s\r\n"
+		    "Connection: %s\r\nSec-WebSocket-Key: %s\r\n"
 		    "Sec-WebSocket-Version: 13\r\n\r\n",
-		    port, cf->key);
+		    port, cf->conn ? cf->conn : "Upgrade", cf->key);
 		if (prelen > sizeof(head) - hl) prelen = sizeof(head) - hl;
 		memcpy(head + hl, pre, prelen);
 		int nc = parse_cuts(hcuts, cuts, 63, hl + prelen);
@@ -642,8 +643,8 @@ ws_establish(const wscfg *cf, const uint8_t *pre, size_t prelen, const char *hcu
 		make_accept(key, acc);
 		int hl = snprintf((char *) head, sizeof(head),
 		    "HTTP/1.1 101 Switching Protocols\r\nUpgrade: websocket\r\n"
-		    "Connection: Upgrade\r\nSec-WebSocket-Accept: %s\r\n\r\n",
-		    acc);
+		    "Connection: %s\r\nSec-WebSocket-Accept: %s\r\n\r\n",
+		    cf->conn ? cf->conn : "Upgrade", acc);
 		if (prelen > sizeof(head) - hl) prelen = sizeof(head) - hl;
 		memcpy(head + hl, pre, prelen);
 		int nc = parse_cuts(hcuts, cuts, 63, hl + prelen);
@@ -690,7 +691,17 @@ do_ws(char **tok)
 	nng_stream *s;
 	int      fd;
 	static uint8_t txb[1 << 18];
+	static char    connhdr[256];
 
+	if (tok[10] != NULL) { // optional: Connection header value (hex)
+		size_t   cl;
+		uint8_t *cv = unhex(tok[10], &cl);
+		if (cl > 255) cl = 255;
+		memcpy(connhdr, cv, cl);
+		connhdr[cl] = 0;
+		cf.conn     = connhdr;
+		free(cv);
+	}
 	if (pre > len) pre = len;
 	fd = ws_establish(&cf, d, pre, tok[9], &s);
 	if (fd < 0) {
@@ -878,6 +889,74 @@ do_wssend(char **tok)
 	free(d);
 }
 
+// wssend2 <role> <fragsize> <hexA> <hexB>: two message-mode sends submitted
+// back to back on the same connection (both in flight); prints the frames seen
+static void
+do_wssend2(char **tok)
+{
+	wscfg cf = { .role = tok[1][0], .mode = 'm', .maxframe = 0, .recvmax = 0,
+		.fragsize = strtoull(tok[2], NULL, 10), .recvtext = 0, .sendtext = 0,
+		.key = "dGhlIHNhbXBsZSBub25jZQ==" };
+	size_t      la, lb, ntx = 0;
+	uint8_t    *a = unhex(tok[3], &la), *b = unhex(tok[4], &lb);
+	nng_stream *s;
+	nng_aio    *aio[2];
+	nng_msg    *m;
+	static uint8_t txb[1 << 20];
+	int         fd = ws_establish(&cf, NULL, 0, "-", &s);
+
+	if (fd < 0) {
+		printf("sent2 rv=-1\n");
+		ws_teardown();
+		free(a);
+		free(b);
+		return;
+	}
+	for (int i = 0; i < 2; i++) {
+		nng_aio_alloc(&aio[i], NULL, NULL);
+		nng_aio_set_timeout(aio[i], 5000);
+		nng_msg_alloc(&m, 0);
+		nng_msg_append(m, i ? b : a, i ? lb : la);
+		nng_aio_set_msg(aio[i], m);
+	}
+	nng_stream_send(s, aio[0]);
+	nng_stream_send(s, aio[1]);
+	for (;;) {
+		struct pollfd pfd = { .fd = fd, .events = POLLIN };
+		if (poll(&pfd, 1, 2) > 0) {
+			ssize_t r = recv(fd, txb + ntx, sizeof(txb) - ntx, 0);
+			if (r <= 0) break;
+			ntx += (size_t) r;
+		} else if (!nng_aio_busy(aio[0]) && !nng_aio_busy(aio[1])) {
+			break;
+		}
+	}
+	nng_aio_wait(aio[0]);
+	nng_aio_wait(aio[1]);
+	printf("sent2 rv=%d,%d\n", nng_aio_result(aio[0]), nng_aio_result(aio[1]));
+	for (int i = 0; i < 2; i++) {
+		if (nng_aio_result(aio[i]) != 0 && nng_aio_get_msg(aio[i]) != NULL) nng_msg_free(nng_aio_get_msg(aio[i]));
+	}
+	nng_stream_close(s);
+	uint8_t cl_s[4] = { 0x88, 0x02, 0x03, 0xe8 };
+	uint8_t cl_c[8] = { 0x88, 0x82, 0, 0, 0, 0, 0x03, 0xe8 };
+	if (cf.role == 's') {
+		raw_write_all(fd, cl_c, 8);
+	} else {
+		raw_write_all(fd, cl_s, 4);
+	}
+	nng_stream_free(s);
+	ntx = raw_read_eof(fd, txb, ntx, sizeof(txb));
+	close(fd);
+	ws_teardown();
+	print_tx(txb, ntx);
+	printf("end\n");
+	nng_aio_free(aio[0]);
+	nng_aio_free(aio[1]);
+	free(a);
+	free(b);
+}
+
 int
 main(int argc, char **argv)
 {
@@ -889,7 +968,8 @@ main(int argc, char **argv)
 	while (fgets(line, sizeof(line), stdin) != NULL) {
 		int   nt = 0;
 		char *sp = NULL;
-		for (char *t = strtok_r(line, " \n", &sp); t != NULL && nt < 12; t = strtok_r(NULL, " \n", &sp)) {
+		memset(tok, 0, sizeof(tok));
+		for (char *t = strtok_r(line, " \n", &sp); t != NULL && nt < 11; t = strtok_r(NULL, " \n", &sp)) {
 			tok[nt++] = t;
 		}
 		if (nt == 0 || tok[0][0] == '#') continue;
@@ -914,6 +994,8 @@ main(int argc, char **argv)
 			do_hhead(tok, false);
 		} else if (strcmp(op, "ws") == 0 && nt >= 10) {
 			do_ws(tok);
+		} else if (strcmp(op, "wssend2") == 0 && nt >= 5) {
+			do_wssend2(tok);
 		} else if (strcmp(op, "wssend") == 0 && nt >= 6) {
 			do_wssend(tok);
 		} else {
